@@ -3,7 +3,8 @@
    Model: Codec/C27Convert.v (NumberTypeImpl_.Convert per width, DecimalType_.Convert). *)
 From Coq Require Import ZArith Bool List.
 Import ListNotations.
-From GMS Require Import Codec.C25Arith Codec.C27Convert Codec.C27ConvertProofs Codec.C27Strings Codec.C27StringsProofs.
+From GMS Require Import Codec.C25Arith Codec.C27Convert Codec.C27ConvertProofs Codec.C27Strings Codec.C27StringsProofs
+  Codec.C26Compare Codec.C27Temporal Codec.C27TemporalProofs Codec.C27Enum Codec.C27EnumProofs.
 Open Scope Z_scope.
 
 (* the narrow integer types (every width below 64 bits, signed and unsigned): given the int64 image [n] of the
@@ -157,6 +158,110 @@ Example C27_strings_nonvacuous :
   conv_text false 3 [97;98;99;100] 4 = TErr /\ conv_text true 3 [195;169;49] 2 = TOk [195;169;49].
 Proof. exact nonvacuous_strings. Qed.
 Print Assumptions C27_strings_nonvacuous.
+
+(* ---- temporal types (model: Codec/C27Temporal.v) ---- *)
+(* DATE / DATETIME(p) / TIMESTAMP(p) from text: accepted means well-formed in the strict grammar
+   YYYY-MM-DD[ HH:MM:SS[.f{1,6}]] with valid fields, and the stored instant is the text's instant (the day for DATE,
+   rounded half up to p digits otherwise); anything else is rejected *)
+Theorem C27_temporal_convert_exact_or_rejected :
+  forall k p bs us, conv_dt k p bs = DOk us ->
+    exists c, parse_strict bs = Some c /\ valid_civil c = true /\
+              us = match k with KDate => trunc_day (us_of_civil c) | _ => round_us p (us_of_civil c) end.
+Proof. exact conv_dt_exact_or_rejected. Qed.
+Print Assumptions C27_temporal_convert_exact_or_rejected.
+
+Theorem C27_temporal_malformed_rejected : forall k p bs, parse_strict bs = None -> conv_dt k p bs = DErr.
+Proof. exact conv_dt_malformed_rejected. Qed.
+Print Assumptions C27_temporal_malformed_rejected.
+
+(* the stored instant is within half a unit of precision of the text's instant, and storing it again is the identity *)
+Theorem C27_temporal_precision_and_idempotence :
+  forall k p bs us c, 0 <= p <= 6 -> k <> KDate -> conv_dt k p bs = DOk us -> parse_strict bs = Some c ->
+    2 * Z.abs (us - us_of_civil c) <= unit_us p /\ round_us p us = us.
+Proof. exact conv_dt_precision. Qed.
+Print Assumptions C27_temporal_precision_and_idempotence.
+
+Theorem C27_date_truncation_idempotent :
+  forall us, trunc_day (trunc_day us) = trunc_day us /\ trunc_day us <= us < trunc_day us + day_us.
+Proof. exact (fun us => conj (trunc_day_idempotent us) (trunc_day_floor us)). Qed.
+Print Assumptions C27_date_truncation_idempotent.
+
+Theorem C27_year_convert_range_and_idempotent :
+  forall z y, conv_year_int z = YOk y -> (y = 0 \/ 1901 <= y <= 2155) /\ conv_year_int y = YOk y.
+Proof. exact (fun z y H => conj (conv_year_int_range z y H) (conv_year_idempotent z y H)). Qed.
+Print Assumptions C27_year_convert_range_and_idempotent.
+
+Theorem C27_year_four_digit_exact : forall z, 1901 <= z <= 2155 -> conv_year_int z = YOk z.
+Proof. exact conv_year_four_digit_exact. Qed.
+Print Assumptions C27_year_four_digit_exact.
+
+(* TIME: inside the range the arithmetic core of stringToTimespan is exact ... *)
+Theorem C27_time_exact_within_range :
+  forall neg h m s micro, 0 <= h <= 838 -> 0 <= m < 60 -> 0 <= s < 60 -> 0 <= micro < 1000000 ->
+    ~ (h = 838 /\ m = 59 /\ s = 59) ->
+    time_core neg h m s micro = TmOk ((if neg then -1 else 1) * (h * 3600000000 + m * 60000000 + s * 1000000 + micro)).
+Proof. exact time_core_exact. Qed.
+Print Assumptions C27_time_exact_within_range.
+
+(* ... but REFUTED: malformed TIME text is rejected ('11:59:30.451048abc' is accepted as 11:59:30.451049) *)
+Theorem C27_time_junk_after_fraction_refuted :
+  string_to_timespan [49;49;58;53;57;58;51;48;46;52;53;49;48;52;56;97;98;99] = TmOk 43170451049 /\
+  string_to_timespan [48;48;58;48;48;58;48;48;46;52;57;57;57;57;57;32;102;111;111] = TmOk 500000.
+Proof. exact time_junk_after_fraction_accepted. Qed.
+Print Assumptions C27_time_junk_after_fraction_refuted.
+
+(* ... and REFUTED: out-of-range TIME is reported ('999:59:59' and '839:00:00' become 838:59:59 silently) *)
+Theorem C27_time_beyond_range_refuted :
+  string_to_timespan [57;57;57;58;53;57;58;53;57] = TmOk 3020399000000 /\
+  string_to_timespan [56;51;57;58;48;48;58;48;48] = TmOk 3020399000000.
+Proof. exact time_beyond_range_clamped_silently. Qed.
+Print Assumptions C27_time_beyond_range_refuted.
+
+Example C27_temporal_nonvacuous :
+  conv_dt KDatetime 0 [50;48;50;51;45;48;49;45;49;53;32;49;48;58;51;48;58;52;53;46;53] = DOk 1673778646000000 /\
+  conv_dt KDatetime 6 [50;48;50;51;45;48;50;45;51;48;32;49;48;58;48;48;58;48;48] = DErr /\
+  conv_dt KDatetime 6 [50;48;50;51;45;48;49;45;49;53;32;49;48;58;51;48;58;52;53;97;98;99] = DErr /\
+  conv_dt KDate 0 [49;53;48;48;45;48;54;45;49;53] = DOk (-14817513600000000) /\
+  string_to_timespan [49;48;58;51;48;58;52;53] = TmOk 37845000000 /\
+  string_to_timespan [49;48;58;54;49;58;52;53] = TmErr /\
+  conv_year_str [50;48;50;51] = YOk 2023 /\ conv_year_str [49;57;48;48] = YErr /\ conv_year_str [48] = YOk 2000.
+Proof. exact nonvacuous_temporal_convert. Qed.
+Print Assumptions C27_temporal_nonvacuous.
+
+(* ---- ENUM / SET / BIT (model: Codec/C27Enum.v) ---- *)
+Theorem C27_enum_exact_or_rejected : forall n z out, conv_enum n (SI z) = EOk out -> out = z /\ 0 <= z <= n.
+Proof. exact enum_exact_or_rejected. Qed.
+Print Assumptions C27_enum_exact_or_rejected.
+
+Theorem C27_set_bit_exact_or_rejected :
+  forall n z, 0 <= z <= max_u64 ->
+    (forall out, conv_set n (SU z) = EOk out -> out = z /\ z <= 2 ^ n - 1) /\
+    (forall out, conv_bit n (SU z) = EOk out -> out = z /\ z <= 2 ^ n - 1).
+Proof. exact set_bit_exact_or_rejected_nonneg. Qed.
+Print Assumptions C27_set_bit_exact_or_rejected.
+
+Theorem C27_enum_set_bit_idempotent :
+  forall n v out,
+    (conv_enum n v = EOk out -> conv_enum n (SI out) = EOk out) /\
+    (conv_set n v = EOk out -> 0 <= n <= 64 -> conv_set n (SU out) = EOk out) /\
+    (conv_bit n v = EOk out -> 0 <= n <= 64 -> conv_bit n (SU out) = EOk out).
+Proof. exact esb_idempotent. Qed.
+Print Assumptions C27_enum_set_bit_idempotent.
+
+(* REFUTED: negative values are rejected: BIT(8) stores 5 for -5.0, BIT(64) stores 2^64-1 for -1 and 1 for -1.0,
+   SET('x','y','z') stores 3 for -3.0 *)
+Theorem C27_negative_into_bit_set_refuted :
+  conv_bit 8 (SD (-50) 1) = EOk 5 /\ conv_bit 64 (SI (-1)) = EOk 18446744073709551615 /\
+  conv_bit 64 (SD (-10) 1) = EOk 1 /\ conv_set 3 (SD (-30) 1) = EOk 3.
+Proof. exact negative_values_accepted. Qed.
+Print Assumptions C27_negative_into_bit_set_refuted.
+
+Example C27_enum_set_bit_nonvacuous :
+  conv_enum 3 (SI 2) = EOk 2 /\ conv_enum 3 (SI 4) = EErr /\ conv_enum 3 (SI 0) = EOk 0 /\ conv_enum 3 (SD 25 1) = EOk 3 /\
+  conv_set 3 (SI 7) = EOk 7 /\ conv_set 3 (SI 8) = EErr /\ conv_set 3 (SI (-1)) = EErr /\
+  conv_bit 8 (SI 255) = EOk 255 /\ conv_bit 8 (SI 256) = EErr /\ conv_bit 8 (SI (-5)) = EErr.
+Proof. exact nonvacuous_esb. Qed.
+Print Assumptions C27_enum_set_bit_nonvacuous.
 
 Example C27_nonvacuous :
   conv_int I8 (SI 127) = COk (SI 127) InRange /\
